@@ -42,6 +42,7 @@ const (
 var typeToStats = make(map[uint16]string)
 
 type cacheEntry struct {
+	gen        uint64 // DB generation the response was computed from
 	expiration int64
 	response   *dns.Msg
 }
@@ -157,7 +158,7 @@ func (h *FBDNSDB) ServeDNSWithRCODE(ctx context.Context, w dns.ResponseWriter, r
 	)
 	h.stats.IncrementCounter("DNS_queries")
 
-	reader, err := h.AcquireReader()
+	reader, cacheGen, err := h.acquireReader()
 	if err != nil {
 		h.stats.IncrementCounter("DNS_db.read_error")
 		// We cannot acquire a reader, most likely because the DB couldn't be loaded.
@@ -226,7 +227,12 @@ func (h *FBDNSDB) ServeDNSWithRCODE(ctx context.Context, w dns.ResponseWriter, r
 		cacheKey = fmt.Sprintf("%.3d/%d/%d/%s", loc.LocID, state.QType(), state.QClass(), state.Name())
 		if v, ok := h.lru.Get(cacheKey); ok {
 			t := v.(cacheEntry).expiration
-			if t < time.Now().Unix() {
+			if v.(cacheEntry).gen != cacheGen {
+				// computed from another DB generation (inserted by a query that was
+				// in flight across a reload): never serve it
+				h.stats.IncrementCounter("DNS_cache.missed")
+				h.lru.Remove(cacheKey)
+			} else if t < time.Now().Unix() {
 				// evict answer
 				h.stats.IncrementCounter("DNS_cache.expired")
 				h.lru.Remove(cacheKey)
@@ -356,10 +362,10 @@ func (h *FBDNSDB) ServeDNSWithRCODE(ctx context.Context, w dns.ResponseWriter, r
 		if !weighted {
 			// FIXME: we can leave this in cache until it get flushed (via DB reload)
 			timeout = time.Now().Unix() + 1000
-			h.lru.Add(cacheKey, cacheEntry{expiration: timeout, response: a.Copy()})
+			h.lru.Add(cacheKey, cacheEntry{gen: cacheGen, expiration: timeout, response: a.Copy()})
 		} else if h.cacheConfig.WRSTimeout > 0 {
 			timeout = time.Now().Unix() + h.cacheConfig.WRSTimeout
-			h.lru.Add(cacheKey, cacheEntry{expiration: timeout, response: a.Copy()})
+			h.lru.Add(cacheKey, cacheEntry{gen: cacheGen, expiration: timeout, response: a.Copy()})
 		}
 	}
 
